@@ -5,9 +5,13 @@ EXTENDS ShorthandSem
 -----------------------------------------------------------------------------
 (* rendering *)
 N(n) == ToString(n)
-T3(p) == N(p[1]) \o "." \o N(p[2]) \o "." \o N(p[3])
-T2(p) == N(p[1]) \o "." \o N(p[2])
-T1(p) == N(p[1])
+\* an epoch is folded into the first component (epoch 1 = +1000): the tuple order is then still the version
+\* order; only pypi rows use it and only pypi renders it ("1!2.0")
+EP(p) == IF p[1] >= 1000 THEN "1!" ELSE ""
+M1(p) == IF p[1] >= 1000 THEN p[1] - 1000 ELSE p[1]
+T3(p) == EP(p) \o N(M1(p)) \o "." \o N(p[2]) \o "." \o N(p[3])
+T2(p) == EP(p) \o N(M1(p)) \o "." \o N(p[2])
+T1(p) == EP(p) \o N(M1(p))
 TA(p, ar) == IF ar = 1 THEN T1(p) ELSE IF ar = 2 THEN T2(p) ELSE T3(p)
 \* how an ecosystem spells release levels 1, 2 (pre-releases) and 4 (post)
 PreText(e, r) ==
@@ -27,6 +31,9 @@ ZS == {0, 3, 9}
 B3 == {V(x, y, z, 3) : x \in XS, y \in XS, z \in ZS}
 B2 == {V(x, y, 0, 3) : x \in XS, y \in XS}
 B1 == {V(x, 0, 0, 3) : x \in XS}
+E3 == {V(1000 + x, y, z, 3) : x \in {0, 2}, y \in {0, 2}, z \in {0, 3}}
+E2 == {V(1000 + x, y, 0, 3) : x \in {0, 2}, y \in {0, 2}}
+E1 == {V(1000 + x, 0, 0, 3) : x \in {0, 2}}
 Bases(ar) == IF ar = 1 THEN B1 ELSE IF ar = 2 THEN B2 ELSE B3
 
 \* caret upper bound: bump the first non-zero of the given components, or the last given one
@@ -122,6 +129,12 @@ Pypi ==
   \cup {Vec(e, "prefix2", "==" \o T2(b) \o ".*", <<Iv(PrefLo(b, 2, 3), TRUE, PrefHi(b, 2, 3), FALSE)>>, FALSE, FALSE, FALSE) : b \in B2}
   \cup {Vec(e, "notprefix1", "!=" \o T1(b) \o ".*", <<Iv(PrefLo(b, 1, 3), TRUE, PrefHi(b, 1, 3), FALSE)>>, TRUE, FALSE, FALSE) : b \in B1}
   \cup {Vec(e, "notprefix2", "!=" \o T2(b) \o ".*", <<Iv(PrefLo(b, 2, 3), TRUE, PrefHi(b, 2, 3), FALSE)>>, TRUE, FALSE, FALSE) : b \in B2}
+  \* the same constructs with an explicit epoch (epoch x wildcard, epoch x compatible release)
+  \cup {Vec(e, "epoch-compat3", "~=" \o T3(b), <<Iv(b, TRUE, PessHi(b, 3, 3), FALSE)>>, FALSE, FALSE, FALSE) : b \in E3}
+  \cup {Vec(e, "epoch-compat2", "~=" \o T2(b), <<Iv(b, TRUE, PessHi(b, 2, 3), FALSE)>>, FALSE, FALSE, FALSE) : b \in E2}
+  \cup {Vec(e, "epoch-prefix1", "==" \o T1(b) \o ".*", <<Iv(PrefLo(b, 1, 3), TRUE, PrefHi(b, 1, 3), FALSE)>>, FALSE, FALSE, FALSE) : b \in E1}
+  \cup {Vec(e, "epoch-prefix2", "==" \o T2(b) \o ".*", <<Iv(PrefLo(b, 2, 3), TRUE, PrefHi(b, 2, 3), FALSE)>>, FALSE, FALSE, FALSE) : b \in E2}
+  \cup {Vec(e, "epoch-notprefix2", "!=" \o T2(b) \o ".*", <<Iv(PrefLo(b, 2, 3), TRUE, PrefHi(b, 2, 3), FALSE)>>, TRUE, FALSE, FALSE) : b \in E2}
 
 \* bracket intervals (nuget, maven): all eight open/closed/unbounded forms, the exact form, maven unions
 Brackets(e) ==
@@ -167,8 +180,11 @@ ProbesOf(v) ==
               THEN {V(b[1], b[2], b[3], 1) : b \in {b \in lows : Real(b)}}
                    \cup {V(b[1], b[2], b[3], 2) : b \in {b \in lows : Real(b) /\ b[4] = 2}}
               ELSE {}
-      hpre == IF v.hiPre /\ 1 \in ProbeLevels(e) THEN {V(b[1], b[2], b[3], 1) : b \in {b \in his : Real(b)}} ELSE {} IN
-  {p \in core \cup post \cup bpre \cup hpre : Real(p) /\ p[4] \in ProbeLevels(e) \cup {1, 2}}
+      hpre == IF v.hiPre /\ 1 \in ProbeLevels(e) THEN {V(b[1], b[2], b[3], 1) : b \in {b \in his : Real(b)}} ELSE {}
+      xep == IF e = "pypi"
+             THEN {IF b[1] >= 1000 THEN V(b[1] - 1000, b[2], b[3], 3) ELSE V(b[1] + 1000, b[2], b[3], 3) : b \in {b \in bs : Real(b)}}
+             ELSE {} IN
+  {p \in core \cup post \cup bpre \cup hpre \cup xep : Real(p) /\ p[4] \in ProbeLevels(e) \cup {1, 2}}
 
 -----------------------------------------------------------------------------
 (* generator automaton: one step picks a table row *)
